@@ -27,10 +27,18 @@ MANIFEST = {
             "a stateless function of its constructor arguments and inputs: one instance is called 2-4 times with pairs of "
             "different intensity range, shape, dimension, batch, dtype, masks and requires_grad, and every call must agree with "
             "the functional form, a fresh instance and the float64 model, leave the instance's attributes / buffers and all input "
-            "tensors unchanged and pass gradients like the functional form. Exploration: no absence proof; "
+            "tensors unchanged and pass gradients like the functional form. The overlap and correlation losses, which convert "
+            "their inputs to float32, are exercised with every storage dtype they accept (float16, bfloat16, float32, float64, "
+            "uint8, int64; Dice/Tversky also bool; prediction, target and weight may differ in dtype), with classes that are empty "
+            "in both maps and with maps of up to 330^2 / 48^3 voxels (foreground counts beyond the integer range and beyond the "
+            "largest finite value of half precision): the references are evaluated on the stored values with float32 bounds, and "
+            "the result must equal that of the same values stored as float32. Exploration: no absence proof; "
             "tolerances are derived from float32 rounding and the conditioning of the correlation coefficient.",
     "note": "Trusted: numpy, the reference models in vlib/ref_c16.py (self-tested on closed-form cases), the conditioning bound "
-            "of the squared correlation coefficient derived in props/c16.py; CPU, float32/float64 inputs; images <= 20^2 / 10^3; "
+            "of the squared correlation coefficient derived in props/c16.py; CPU; pointwise losses and mutual information (which "
+            "compute in the dtype of their inputs) with float32/float64 inputs only; images <= 20^2 / 10^3 (overlap maps up to "
+            "330^2 / 48^3); aggregation masks of reduced precision / integer images are float32 (reduce_loss sums a mask in "
+            "the mask's own dtype); "
             "random sub-sampling options of mi_loss are not exercised (they draw from the global torch RNG); PatchwiseImageLoss is "
             "compared with the pairwise loss of patches sampled with deepali's own grid_sample / grid_sample_mask (sampler trusted "
             "here, it belongs to another property).",
@@ -56,6 +64,14 @@ ASSUMPTIONS = [
     "data-derived norms; PatchwiseImageLoss: n eps for its differently strided patch tensors)",
     "windowed-loss reference for wlcc_loss uses binary masks (soft masks: structural checks only)",
     "kernel sizes are odd (documented requirement for shape preservation)",
+    "storage dtypes: dice/tversky/ncc/lcc/wlcc convert their inputs to float32 (DESIGN B; observed on the pinned tree for float16, "
+    "bfloat16, float64, bool, uint8, int64 inputs), so the same K eps32 bounds apply whatever the storage dtype and the reference is "
+    "computed from the stored (already rounded) values; the dtype of the RESULT is not asserted (a float64 result for float64 "
+    "inputs would be legitimate); soft maps / weights only with floating point storage; integer images are 256 grey levels; "
+    "the affine map a*x+b of a reduced precision / integer image is stored as float32 (mixed-dtype pair)",
+    "masks of reduced precision / integer images: the aggregation mask is float32, wlcc source_mask / target_mask and Dice weights "
+    "(converted by the loss itself) use the image dtype when it is a floating point type; half precision aggregation masks are "
+    "not generated (reduce_loss sums the mask in its own dtype: a half precision count, see the report)",
 ]
 
 KNOWN = Known(PROPERTY)
@@ -128,6 +144,52 @@ def mask_nontrivial(m):
 
 def T(a, dt):
     return None if a is None else torch.tensor(np.ascontiguousarray(a), dtype=dt)
+
+
+# storage dtypes of the inputs of the losses that convert their inputs to float32 (overlap and correlation measures):
+# every dtype these functions accept on the pinned tree.  The reference is always computed from the STORED values.
+HALF_DTYPES = {"float16": torch.float16, "bfloat16": torch.bfloat16}
+SEG_DTYPES = ("float32", "float64", "float16", "bfloat16", "bool", "uint8", "int64")
+IMG_DTYPES = ("float32", "float64", "float16", "bfloat16", "uint8", "int64")
+
+
+def sdtype(name):
+    """torch dtype of a storage dtype name (tdtype + the reduced precision floating point types)."""
+    return HALF_DTYPES[name] if name in HALF_DTYPES else tdtype(name)
+
+
+def is_float_name(name):
+    return name in ("float16", "bfloat16", "float32", "float64")
+
+
+def wide_dtypes(names):
+    """float32 / float64 half of the time, otherwise any of `names`."""
+    return st.one_of(gen.dtypes(), st.sampled_from(list(names)))
+
+
+def stored_pair(case, name=None):
+    """make_pair() prepared for the storage dtype `name`: integer types get integer grey levels (256 levels starting
+    at round(lo) for signed types, at 0 for uint8); floating point types are rounded by the tensor constructor."""
+    name = case["dtype"] if name is None else name
+    x64, y64 = make_pair(case)
+    if is_float_name(name):
+        return x64, y64
+    off = 0.0 if name == "uint8" else float(round(case["lo"]))
+    q = lambda v: off + np.clip(np.floor((v - case["lo"]) / case["R"] * 256.0), 0.0, 255.0)  # noqa: E731
+    return q(x64), q(y64)
+
+
+def side_mask_dtype_name(name):
+    """Dtype of masks that the loss converts itself (wlcc source_mask / target_mask, Dice weights): the image dtype
+    if that is a floating point type (reduced precision included), else float32."""
+    return name if is_float_name(name) else "float32"
+
+
+def mask_dtype_name(name):
+    """Dtype of the aggregation mask that goes with images stored as `name`: reduce_loss() sums the mask in the
+    mask's own dtype, so a float32 mask is used with reduced precision / integer images (a half precision mask
+    would make the documented mean a half precision quantity - not asserted here)."""
+    return name if name in ("float32", "float64") else "float32"
 
 
 def as64(t):
@@ -341,15 +403,16 @@ def kernel_arg(k):
 
 
 def corr_inputs(case):
-    dt = tdtype(case["dtype"])
-    x64, y64 = make_pair(case)
+    dt = sdtype(case["dtype"])
+    x64, y64 = stored_pair(case)
     x, y = T(x64, dt), T(y64, dt)
     shp = full_shape(case)
     m64s, ms = {}, {}
     for key in ("mask", "source_mask", "target_mask"):
         d = case.get(key)
         if d is not None:
-            ms[key] = T(make_mask(d, shp, case["key"]), dt)
+            mdt = sdtype(mask_dtype_name(case["dtype"]) if key == "mask" else side_mask_dtype_name(case["dtype"]))
+            ms[key] = T(make_mask(d, shp, case["key"]), mdt)
             m64s[key] = f32(ms[key])
     return x, y, m64s, ms
 
@@ -414,7 +477,7 @@ def corr_reference_cases(draw):
     case["k"] = k
     case["loss"] = draw(st.sampled_from(["ncc", "lcc", "lcc", "wlcc", "wlcc"]))
     case["content"] = draw(st.sampled_from(["noise", "noise", "mix"]))
-    case["dtype"] = draw(gen.dtypes())
+    case["dtype"] = draw(wide_dtypes(IMG_DTYPES))
     case["eps"] = draw(st.sampled_from([None, None, 1e-15, 1e-8, 1e-3]))
     case.update(corr_mask_strategy(draw, case["loss"]))
     return case
@@ -495,7 +558,7 @@ def corr_axiom_cases(draw):
     case["k"] = k
     case["loss"] = draw(st.sampled_from(["ncc", "ncc", "lcc", "lcc", "wlcc"]))
     case["content"] = draw(st.sampled_from(["noise", "noise", "mix"]))
-    case["dtype"] = draw(gen.dtypes())
+    case["dtype"] = draw(wide_dtypes(IMG_DTYPES))
     case["eps"] = draw(st.sampled_from([None, None, None, 1e-12]))
     case.update(corr_mask_strategy(draw, case["loss"]))
     sign = draw(st.sampled_from([1.0, 1.0, -1.0]))
@@ -508,7 +571,9 @@ def corr_axiom_cases(draw):
 def run_corr_axioms(case):
     loss = case["loss"]
     x, y, m64s, ms = corr_inputs(case)
-    dt = x.dtype
+    # a*x + b of reduced precision / integer images is stored as float32: rounding it to the storage type again would
+    # not be an affine map of the stored values (the pair then has mixed dtypes, which the losses accept)
+    dt = x.dtype if x.dtype in (torch.float32, torch.float64) else torch.float32
     xr, yr = f32(x), f32(y)
     k, eps = kernel_arg(case["k"]), case["eps"]
     e = 1e-15 if eps is None else eps
@@ -725,28 +790,46 @@ def run_mi(case):
 # facet 5: overlap measures
 
 
+OVERLAP_SIZES = {  # size class -> (min, max) extent per axis for D = 2 / D = 3
+    "small": {2: (1, 12), 3: (1, 6)},
+    "mid": {2: (40, 70), 3: (12, 18)},      # 1 600 - 5 800 voxels: counts beyond the integer range of half precision
+    "large": {2: (270, 330), 3: (42, 48)},  # >= 72 900 voxels: counts beyond the largest finite float16
+}
+
+
 @st.composite
 def overlap_cases(draw):
     D = draw(gen.dims())
-    hi = 12 if D == 2 else 6
-    C = draw(st.integers(1, 3))
+    size = draw(st.sampled_from(["small"] * 7 + ["mid"] * 2 + ["large"]))
+    lo, hi = OVERLAP_SIZES[size][D]
+    C = draw(st.integers(1, 3 if size == "small" else 2))
     target_form = draw(st.sampled_from(["same", "same", "same", "labels"]))
+    dtype = draw(wide_dtypes(SEG_DTYPES))
     case = {
-        "D": D, "shape": draw(st.lists(st.integers(1, hi), min_size=D, max_size=D)),
-        "N": draw(st.integers(1, 3)), "C": C, "key": draw(st.integers(0, 10 ** 6)),
+        "D": D, "shape": draw(st.lists(st.integers(lo, hi), min_size=D, max_size=D)),
+        "N": draw(st.integers(1, 3 if size == "small" else 2)), "C": C, "key": draw(st.integers(0, 10 ** 6)),
         "p": draw(st.sampled_from([0.0, 0.2, 0.5, 0.8, 1.0])), "flip": draw(st.sampled_from([0.0, 0.1, 0.5])),
         "soft": draw(st.sampled_from([False, False, True])),
-        "dtype": draw(gen.dtypes()),
+        "dtype": dtype,
+        # storage dtype of the target / weight: None = that of the prediction
+        "tdtype": draw(st.sampled_from([None, None, None] + list(SEG_DTYPES))),
+        "wdtype": draw(st.sampled_from([None, None, None] + list(SEG_DTYPES))),
         "weight": draw(st.one_of(st.none(), mask_desc(("N1", "NC", "N")))),
+        # a class that is empty in prediction and target (channel index, 'same' target form only)
+        "empty": draw(st.one_of(st.none(), st.none(), st.integers(0, C - 1))),
         "alpha": draw(st.one_of(st.none(), gen.qfloat(0.0, 1.0, 0.05))),
         "beta": draw(st.one_of(st.none(), gen.qfloat(0.0, 1.0, 0.05))),
         "gamma": draw(st.sampled_from([None, None, 1.0, 1.5, 2.0, 3.0])),
         "eps": draw(st.sampled_from([None, None, 1e-15, 1e-6])),
         "reduction": draw(st.sampled_from(["none", "mean", "sum"])),
         "target_form": target_form,
+        "size": size,
     }
-    if target_form == "labels":
+    # soft maps / soft weights need a floating point storage type
+    if target_form == "labels" or not (is_float_name(dtype) and is_float_name(case["tdtype"] or dtype)):
         case["soft"] = False
+    if case["weight"] is not None and not is_float_name(case["wdtype"] or dtype):
+        case["weight"] = dict(case["weight"], soft=False)
     return case
 
 
@@ -765,6 +848,9 @@ def overlap_maps(case):
     if case["soft"]:
         a = np.round(a * 0.7 + 0.3 * v, 3)
         b = np.round(b * 0.6 + 0.4 * u, 3)
+    if case.get("empty") is not None:
+        a[:, case["empty"]] = 0.0
+        b[:, case["empty"]] = 0.0
     lab = b[:, 0].astype(np.int64) if case["C"] == 1 else None
     return a, b, lab
 
@@ -780,13 +866,15 @@ def accepted(kind, what, fn, *args, **kw):
 def run_overlap(case):
     import deepali.losses.functional as L
 
-    dt = tdtype(case["dtype"])
+    dt = sdtype(case["dtype"])
+    dt_b = sdtype(case.get("tdtype") or case["dtype"])
+    dt_w = sdtype(case.get("wdtype") or case["dtype"])
     shp = full_shape(case)
     a64, b64, lab = overlap_maps(case)
-    a, b = T(a64, dt), T(b64, dt)
-    ar, br = f32(a), f32(b)
+    a, b = T(a64, dt), T(b64, dt_b)
+    ar, br = f32(a), f32(b)  # the stored values (every storage dtype converts to float32 exactly, except float64)
     wd = case["weight"]
-    w = T(make_mask(wd, shp, case["key"]), dt)
+    w = T(make_mask(wd, shp, case["key"]), dt_w)
     w64 = None if w is None else f32(w)
     wref = None if w64 is None else (w64[:, None] if wd["kind"] == "N" else w64)
     w_dice = None if w is None else (w.unsqueeze(1) if wd["kind"] == "N" else w)
@@ -804,8 +892,8 @@ def run_overlap(case):
     if tuple(d_ab.shape) != NC:
         raise Violation("dice_none_shape", f"dice_score(reduction='none') shape {tuple(d_ab.shape)} != (N, C) = {NC}")
     d64 = as64(d_ab)
-    if (d64 < -tol).any() or (d64 > 1 + tol).any():
-        raise Violation("dice_range", f"dice_score outside [0, 1]: {d64.min():.6g} .. {d64.max():.6g}")
+    if not np.isfinite(d64).all() or (d64 < -tol).any() or (d64 > 1 + tol).any():
+        raise Violation("dice_range", f"dice_score of {case['dtype']} maps outside [0, 1]: {np.nanmin(d64):.6g} .. {np.nanmax(d64):.6g}, {int((~np.isfinite(d64)).sum())} non-finite")
     worst = max(worst, check_close(L.dice_score(b, a, weight=w_dice, reduction="none", **kw), d64, tol, "dice_symmetry", "dice_score(b, a) != dice_score(a, b)"))
     worst = max(worst, check_close(L.dice_score(a, b, weight=w_dice, reduction=red, **kw), R.reduce_plain(d64, red), tol * max(1.0, d64.size if red == "sum" else 1),
                                    "dice_reduction", f"dice_score reduction {red!r} is not the {red} of the 'none' output"))
@@ -817,6 +905,12 @@ def run_overlap(case):
         worst = max(worst, check_close(L.dice_score(a, a, weight=w_dice, reduction="none", **kw), 1.0, 4 * EPS32, "dice_identity", "dice_score(a, a) != 1 for a binary map"))
         worst = max(worst, check_close(L.dice_loss(b, b, weight=w_dice, reduction=red, **kw), 0.0, 4 * EPS32 * (d64.size if red == "sum" else 1), "dice_identity", "dice_loss(b, b) != 0 for a binary map"))
         worst = max(worst, check_close(d_ab, R.dice_binary(ar, br, wref, e), tol, "dice_reference", "dice_score vs 2|A n B|/(|A|+|B|) on binary maps"))
+    # the value is a function of the stored VALUES, not of the type they are stored in
+    plain = (dt, dt_b) != (torch.float32, torch.float32) or (w is not None and dt_w != torch.float32)
+    if plain:
+        w32 = None if w_dice is None else w_dice.float()
+        worst = max(worst, check_close(d_ab, as64(L.dice_score(a.float(), b.float(), weight=w32, reduction="none", **kw)), tol, "dice_storage_dtype",
+                                       f"dice_score of maps stored as {case['dtype']} / {case.get('tdtype')} / weight {case.get('wdtype')} != dice_score of the same values stored as float32"))
 
     # ---- Tversky index
     alpha, beta = case["alpha"], case["beta"]
@@ -839,8 +933,12 @@ def run_overlap(case):
     if tuple(t_ab.shape) != NC:
         raise Violation("tversky_none_shape", f"tversky_index(reduction='none') shape {tuple(t_ab.shape)} != (N, C) = {NC}")
     t64 = as64(t_ab)
-    if (t64 < -tol).any() or (t64 > 1 + tol).any():
-        raise Violation("tversky_range", f"tversky_index outside [0, 1]: {t64.min():.6g} .. {t64.max():.6g}")
+    if not np.isfinite(t64).all() or (t64 < -tol).any() or (t64 > 1 + tol).any():
+        raise Violation("tversky_range", f"tversky_index of {case['dtype']} maps outside [0, 1]: {np.nanmin(t64):.6g} .. {np.nanmax(t64):.6g}, {int((~np.isfinite(t64)).sum())} non-finite")
+    if plain:
+        worst = max(worst, check_close(t_ab, as64(L.tversky_index(a.float(), b.float(), weight=None if w is None else w.float(), reduction="none", **tkw)), tol,
+                                       "tversky_storage_dtype", f"tversky_index of maps stored as {case['dtype']} / {case.get('tdtype')} / weight {case.get('wdtype')} "
+                                                                "!= tversky_index of the same values stored as float32"))
     # swapping prediction and target exchanges false positives and false negatives
     skw = dict(kw, alpha=be, beta=al)
     worst = max(worst, check_close(L.tversky_index(b, a, weight=w, reduction="none", **skw), t64, tol, "tversky_swap_symmetry",
@@ -861,6 +959,8 @@ def run_overlap(case):
     def result():
         return {"ratio": worst, "nontrivial": differ and shp[0] >= 2,
                 "labels": ["binary" if binary else "soft", f"C={shp[1]}", f"N={shp[0]}", f"D={case['D']}", "weight=" + (wd["kind"] if wd else "none"),
+                           case["dtype"], "tdtype=" + str(case.get("tdtype")), "wdtype=" + (str(case.get("wdtype")) if wd else "-"), "size=" + case.get("size", "small"),
+                           "empty_class" if bool(((ar.reshape(NC + (-1,)) == 0).all(2) & (br.reshape(NC + (-1,)) == 0).all(2)).any()) else "no_empty_class",
                            "gamma" if case["gamma"] and case["gamma"] > 1 else "nogamma", case["target_form"], "a=b" if al == be else "a!=b", red]}
 
     # regression witnesses may carry 'upto' to stop after the section they are about (never generated)
@@ -868,7 +968,7 @@ def run_overlap(case):
         return result()
     # ---- documented target forms: label map (N, ..., X)
     if case["target_form"] == "labels" and lab is not None:
-        lab_t = torch.tensor(lab, dtype=dt) if case["C"] == 1 else torch.tensor(lab)
+        lab_t = torch.tensor(lab, dtype=dt_b) if case["C"] == 1 else torch.tensor(lab)
         t_lab = accepted("tversky_label_map_target_rejected", f"tversky_index(input {tuple(a.shape)}, target labels {tuple(lab_t.shape)} {lab_t.dtype})",
                          L.tversky_index, a, lab_t, weight=w, reduction="none", **tkw)
         worst = max(worst, check_close(t_lab, t64, tol, "tversky_label_map_target", "tversky_index with a label map target (N, ..., X) != one-hot target"))
@@ -907,7 +1007,9 @@ def module_cases(draw):
     low = 3 if ksz is None and cls not in ("LCC", "LNCC", "WLCC", "SLCC") else (7 if ksz is None else ksz)
     case = images_base(draw, 12, 8, D=D, min_sizes=[low] * D, max_c=1 if mi else 3)
     case["cls"] = cls
-    case["dtype"] = draw(gen.dtypes())
+    # overlap and correlation losses convert their inputs to float32: every storage dtype they accept
+    case["dtype"] = draw(wide_dtypes(SEG_DTYPES) if cls in ("Dice", "DSC") else
+                         (wide_dtypes(IMG_DTYPES) if cls in ("NCC", "LCC", "LNCC", "WLCC", "SLCC") else gen.dtypes()))
     case["content"] = "noise"
     kinds = ("11", "N1") if mi else ("11", "N1", "NC")
     if cls in ("Dice", "DSC"):
@@ -943,14 +1045,19 @@ def run_modules(case):
 
     cls = case["cls"]
     opts = case["opts"]
-    dt = tdtype(case["dtype"])
+    dt = sdtype(case["dtype"])
     eps = eps_of(dt)
     shp = full_shape(case)
-    x64, y64 = make_pair(case)
     if cls in ("Dice", "DSC"):
+        x64, y64 = make_pair(case)
         x64, y64 = (x64 > np.median(x64)).astype(np.float64), (y64 > np.median(y64)).astype(np.float64)
+        mdt = sdtype(side_mask_dtype_name(case["dtype"]))
+    else:
+        x64, y64 = stored_pair(case)
+        mdt = sdtype(mask_dtype_name(case["dtype"]))
+    sdt = sdtype(side_mask_dtype_name(case["dtype"]))
     x, y = T(x64, dt), T(y64, dt)
-    m = T(make_mask(case["mask"], shp, case["key"]), dt)
+    m = T(make_mask(case["mask"], shp, case["key"]), mdt)
     ctor = getattr(LM, cls)
     labels = [cls, case["dtype"], "mask=" + (case["mask"]["kind"] if case["mask"] else "none")]
     alt = None  # functional value with the option left at its default (non-triviality of the option)
@@ -1005,7 +1112,7 @@ def run_modules(case):
             want = L.lcc_loss(x, y, mask=m, **fkw)
             alt = L.lcc_loss(x, y, mask=m, **alt_kw) if fkw else None
         else:
-            sm, tm = T(make_mask(opts["source_mask"], shp, case["key"]), dt), T(make_mask(opts["target_mask"], shp, case["key"]), dt)
+            sm, tm = T(make_mask(opts["source_mask"], shp, case["key"]), sdt), T(make_mask(opts["target_mask"], shp, case["key"]), sdt)
             got = mod(x, y, mask=m, source_mask=sm, target_mask=tm)
             want = L.wlcc_loss(x, y, mask=m, source_mask=sm, target_mask=tm, **fkw)
             alt = L.wlcc_loss(x, y, mask=m, source_mask=sm, target_mask=tm, **alt_kw) if fkw else None
@@ -1129,8 +1236,8 @@ def sequence_cases(draw):
         if calls and draw(st.integers(0, 2)) == 0:
             # same geometry as the previous call, new content: state kept from it would fit and silently change the value
             c.update({k: calls[-1][k] for k in ("D", "shape", "N", "C")})
-        c["dtype"] = draw(gen.dtypes())
-        c["grad"] = draw(st.sampled_from([False, False, True]))
+        c["dtype"] = draw(wide_dtypes(SEG_DTYPES) if fam == "dice" else (wide_dtypes(IMG_DTYPES) if fam in ("ncc", "lcc", "wlcc") else gen.dtypes()))
+        c["grad"] = draw(st.sampled_from([False, False, True])) and is_float_name(c["dtype"])
         c["content"] = "noise"
         kinds = ("11", "N1") if fam == "mi" else (("N1", "NC") if fam == "dice" else (("N1",) if fam == "patch" else ("11", "N1", "NC", "1C")))
         c["mask"] = draw(st.one_of(*[st.none()] * (3 if fam == "mi" else 1), mask_desc(kinds, soft=soft)))
@@ -1160,9 +1267,11 @@ def seq_tensors(case, c):
     """float64 arrays and tensors of one call: x, y, masks (dict name -> array)."""
     fam = case["family"]
     shp = full_shape(c)
-    x64, y64 = make_pair(c)
     if fam == "dice":
+        x64, y64 = make_pair(c)
         x64, y64 = (x64 > np.median(x64)).astype(np.float64), (y64 > np.median(y64)).astype(np.float64)
+    else:
+        x64, y64 = stored_pair(c)
     masks = {}
     for key in ("mask", "source_mask", "target_mask"):
         if c.get(key) is not None:
@@ -1173,7 +1282,8 @@ def seq_tensors(case, c):
 def freeze(v):
     """Hashable, comparable snapshot of an attribute value (type-exact)."""
     if isinstance(v, torch.Tensor):
-        return ("tensor", str(v.dtype), tuple(v.shape), bool(v.requires_grad), v.detach().cpu().contiguous().numpy().tobytes())
+        # raw bytes through a uint8 view: numpy has no bfloat16
+        return ("tensor", str(v.dtype), tuple(v.shape), bool(v.requires_grad), v.detach().cpu().contiguous().reshape(-1).view(torch.uint8).numpy().tobytes())
     if isinstance(v, torch.nn.Module):
         return ("module", type(v).__qualname__, module_state(v))
     if isinstance(v, (list, tuple)):
@@ -1245,7 +1355,7 @@ def run_sequence(case):
     calls = case["calls"]
     ctor = getattr(LM, cls)
     first = seq_tensors(case, calls[0])
-    dt0 = tdtype(calls[0]["dtype"])
+    dt0 = sdtype(calls[0]["dtype"])
     ctor_tensors = {}  # tensors handed to the constructor (must not be modified either)
     norm_slack_eps = 0.0
     nrm_ref = None  # reference value of a data-derived / given norm
@@ -1375,15 +1485,17 @@ def run_sequence(case):
     refs = empty = 0
     labels = [cls, f"calls={len(calls)}"]
     for i, c in enumerate(calls):
-        dt = tdtype(c["dtype"])
+        dt = sdtype(c["dtype"])
         eps = eps_of(dt)
         x64, y64, m64 = first if i == 0 else seq_tensors(case, c)
+        # masks: see mask_dtype_name / side_mask_dtype_name (identical to dt for float32 / float64 images)
+        mdts = {k: sdtype(side_mask_dtype_name(c["dtype"]) if (fam == "dice" or k != "mask") else mask_dtype_name(c["dtype"])) for k in m64}
 
         def inputs():
             x, y = T(x64, dt), T(y64, dt)
             if c["grad"]:
                 x.requires_grad_(True)
-            return x, y, {k: T(v, dt) for k, v in m64.items()}
+            return x, y, {k: T(v, mdts[k]) for k, v in m64.items()}
 
         x, y, ms = inputs()
         keep = {"source": x.detach().clone(), "target": y.detach().clone(), **{k: v.clone() for k, v in ms.items()}}
@@ -1483,12 +1595,12 @@ FACETS = [
           quick=1200, thorough=40000, shards=16, quick_shards=2),
     Facet("correlation_reference", run_corr_reference, strategy=corr_reference_cases,
           rule="ncc/lcc/wlcc on images <= 12^2 / 8^3 against brute-force window sums in float64; kernels 3-9 (int or tuple), epsilon, masks of "
-               "every documented shape (wlcc: mask / source_mask / target_mask combinations); non-trivial = > 50 % well-conditioned windows "
-               "and reference compared",
+               "every documented shape (wlcc: mask / source_mask / target_mask combinations); images stored as float32/float64 (half of the "
+               "cases), float16, bfloat16, uint8 or int64; non-trivial = > 50 % well-conditioned windows and reference compared",
           quick=1200, thorough=40000, shards=16, quick_shards=2),
     Facet("correlation_axioms", run_corr_axioms, strategy=corr_axiom_cases,
           rule="ncc/lcc/wlcc on images <= 20^2 / 10^3: range, swap symmetry, identity => 0, invariance under a*x+b (a != 0 both signs) of source, "
-               "target or both; non-trivial = (a,b) != (1,0), N >= 2, > 50 % well-conditioned windows",
+               "target or both; storage dtypes as in correlation_reference; non-trivial = (a,b) != (1,0), N >= 2, > 50 % well-conditioned windows",
           quick=800, thorough=30000, shards=16, quick_shards=2),
     Facet("mutual_information", run_mi, strategy=mi_cases,
           rule="mi_loss/nmi_loss, C = 1, explicit vmin/vmax/bins 8-64: swap symmetry, nmi in [0,2], masks (1,1)/(N,1) accepted; levels mode "
@@ -1496,11 +1608,13 @@ FACETS = [
           quick=800, thorough=20000, shards=16, quick_shards=2),
     Facet("overlap", run_overlap, strategy=overlap_cases,
           rule="dice_score/dice_loss/tversky_index/tversky_loss on binary (and soft) maps, weights (N,..)/(N,1,..)/(N,C,..), alpha/beta incl. None, "
-               "gamma, label-map targets; non-trivial = maps differ and N >= 2",
+               "gamma, label-map targets; prediction / target / weight stored as float16, bfloat16, float32, float64, bool, uint8 or int64 "
+               "(independently); sizes small (<= 12^2 / 6^3), mid (40-70^2 / 12-18^3) and large (270-330^2 / 42-48^3); a class empty in both "
+               "maps; non-trivial = maps differ and N >= 2",
           quick=1200, thorough=40000, shards=16, quick_shards=2),
     Facet("modules", run_modules, strategy=module_cases,
-          rule="each class of losses.image constructed with generated options vs its functional form with the same options; non-trivial = the "
-               "option changes the functional value",
+          rule="each class of losses.image constructed with generated options vs its functional form with the same options (Dice and the "
+               "correlation losses with every storage dtype they accept); non-trivial = the option changes the functional value",
           quick=1200, thorough=40000, shards=16, quick_shards=2),
     Facet("stateless_modules", run_sequence, strategy=sequence_cases,
           rule="every concrete PairwiseImageLoss class exported by deepali.losses (enumerated from the package, aliases and PatchwiseImageLoss "
